@@ -109,7 +109,12 @@ func runCase(t *testing.T, c *Case, opts runOpts) []string {
 			switch {
 			case pv != nil:
 				b.WriteString(" P")
-			case rerr != nil && resp == nil:
+			case rerr != nil:
+				// an error, whatever else was returned with it: that is what net/http's Client makes of it
+				// ("RoundTripper returned a response & error; ignoring response")
+				if resp != nil && resp.Body != nil {
+					_ = resp.Body.Close()
+				}
 				b.WriteString(" E")
 			case resp == nil:
 				b.WriteString(" Z") // neither a response nor an error
